@@ -36,6 +36,8 @@ def load():
     if _state['loaded']:
         return M
     sys.dont_write_bytecode = True
+    import warnings
+    warnings.filterwarnings('ignore')
     base = '/dev/shm' if os.path.isdir('/dev/shm') and os.access('/dev/shm', os.W_OK) else None
     d = tempfile.mkdtemp(prefix='verif-pkg-', dir=base)
     _state['pkgdir'] = d
